@@ -4,9 +4,11 @@ package model
 
 import (
 	"github.com/cuteLittleDevil/go-jt808/protocol/utils"
+	"github.com/cuteLittleDevil/go-jt808/shared/consts"
 )
 
 func init() {
+	vrtHarnesses["VerifC07Values"] = VerifC07Values
 	vrtHarnesses["VerifC07WireRoundTrip"] = VerifC07WireRoundTrip
 	vrtHarnesses["VerifC07Helpers"] = VerifC07Helpers
 	vrtHarnesses["VerifC07Lists"] = VerifC07Lists
@@ -210,4 +212,48 @@ func c07Hex(n byte) byte {
 		return '0' + n
 	}
 	return 'a' + (n - 10)
+}
+
+// VerifC07Values: values built directly (not obtained from the wire, so also values the parser
+// itself never produces): T0x0100 in its three layouts with text fields of length 0, 1 or the full
+// field width, bytes symbolic (no NUL - that is the padding -, at most one space anywhere, ASCII
+// plate): Parse(Encode(v)) gives back every field and the same bytes again.
+func VerifC07Values() {
+	ver := []consts.ProtocolVersionType{consts.JT808Protocol2011, consts.JT808Protocol2013, consts.JT808Protocol2019}[vrt_Choose("version", 3)]
+	widths := [3]int{5, 8, 7}
+	switch ver {
+	case consts.JT808Protocol2013:
+		widths = [3]int{5, 20, 7}
+	case consts.JT808Protocol2019:
+		widths = [3]int{11, 30, 30}
+	}
+	var texts [3][]byte
+	for i, w := range widths {
+		n := []int{0, 1, w}[vrt_Choose("fieldLen", 3)]
+		texts[i] = vrt_Bytes("text", n)
+		for _, b := range texts[i] {
+			vrt_Assume(b != 0)
+		}
+	}
+	plate := vrt_Bytes("plate", vrt_Choose("plateLen", 4))
+	for _, b := range plate {
+		vrt_Assume(b != 0 && b < 0x80)
+	}
+	vrtKSpecial("space", 1, func(b byte) bool { return b == ' ' }, texts[0], texts[1], texts[2], plate)
+	v := &T0x0100{ProvinceID: vrt_U16("province"), CityID: vrt_U16("city"), ManufacturerID: string(texts[0]), TerminalModel: string(texts[1]),
+		TerminalID: string(texts[2]), PlateColor: vrt_Byte("plateColor"), LicensePlateNumber: string(plate), Version: ver}
+	e1 := v.Encode()
+	hv := 0
+	if ver == consts.JT808Protocol2019 {
+		hv = 1
+	}
+	var w T0x0100
+	vrt_Assert(w.Parse(c03Msg(hv, e1)) == nil, "encoded 0x0100 does not parse")
+	vrt_Assert(w.Version == ver, "0x0100 layout not recognised after a round trip")
+	vrt_Assert(w.ProvinceID == v.ProvinceID && w.CityID == v.CityID && w.PlateColor == v.PlateColor, "0x0100 numeric fields differ after a round trip")
+	vrt_Assert(vrt_StrEq(w.ManufacturerID, v.ManufacturerID) && vrt_StrEq(w.TerminalModel, v.TerminalModel) && vrt_StrEq(w.TerminalID, v.TerminalID), "0x0100 text field differs after a round trip")
+	vrt_Assert(vrt_StrEq(w.LicensePlateNumber, v.LicensePlateNumber), "0x0100 plate differs after a round trip")
+	vrt_Assert(vrt_BytesEq(w.Encode(), e1), "0x0100 re-encoding differs")
+	vrt_Cover("full-width-field", len(texts[1]) == widths[1])
+	vrt_Cover("layout-2011", ver == consts.JT808Protocol2011)
 }
